@@ -187,7 +187,7 @@ pub proof fn lemma_throwable_roundtrip(c: Seq<u8>, msg: Option<Seq<u8>>)
 """, "roundtrip")
     used = set()
     frags = []
-    for ty, props in (("StackFrame", ["C17"]), ("Throwable", ["C17"])):
+    for ty, props in (("StackFrame", ["C17"]), ("Throwable", ["C17"]), ("StackTrace", ["C17", "C08"])):
         f = st.impl_fn(r"impl Display for %s<'_>" % ty, "fmt")
         f.ret("ret")
         f.contracted = True
@@ -215,6 +215,55 @@ pub proof fn lemma_throwable_roundtrip(c: Seq<u8>, msg: Option<Seq<u8>>)
 """)
     f.body_start("proof { axiom_dsp(); axiom_u16_literals(); }\n    let ghost t0 = (*f).bytes();\n")
     u.raw("impl<'s> Throwable<'s> {\n", "glue")
+    u.emit(f)
+    u.raw("}\n", "glue")
+    # ---- StackTrace: exception line, one indented line per frame, then `Caused by: ` and the cause (printed by the same impl) ----
+    ty, f = frags[2]
+    u.raw("""
+// `{}` of a reference / a box prints the value behind it (std: Display for &T and Box<T> delegate)
+#[verifier::external_body]
+pub proof fn axiom_dsp_refs()
+    ensures
+        forall|x: &Throwable<'_>| #[trigger] dsp::<&Throwable<'_>>(x) == dsp::<Throwable<'_>>(*x),
+        forall|x: &StackFrame<'_>| #[trigger] dsp::<&StackFrame<'_>>(x) == dsp::<StackFrame<'_>>(*x),
+        forall|x: &Box<StackTrace<'_>>| #[trigger] dsp::<&Box<StackTrace<'_>>>(x) == dsp::<StackTrace<'_>>(**x),
+{}
+pub open spec fn frames_text(fr: Seq<StackFrame<'_>>, n: int) -> Seq<u8>
+    decreases n
+{ if n <= 0 { Seq::empty() } else { frames_text(fr, n - 1) + seq![32u8, 32u8, 32u8, 32u8] + dsp(fr[n - 1]) + seq![10u8] } }
+pub open spec fn lit_caused_by() -> Seq<u8> { seq![67u8, 97u8, 117u8, 115u8, 101u8, 100u8, 32u8, 98u8, 121u8, 58u8, 32u8] }   // "Caused by: "
+pub open spec fn head_text(t: StackTrace<'_>) -> Seq<u8> { match t.exception { Some(e) => dsp(e) + seq![10u8], None => Seq::<u8>::empty() } }
+pub open spec fn trace_text(t: StackTrace<'_>) -> Seq<u8> {
+    head_text(t)
+    + frames_text(t.frames@, t.frames@.len() as int)
+    + (match t.cause { Some(c) => lit_caused_by() + dsp(*c), None => Seq::<u8>::empty() })
+}
+""", "trace text")
+    f.contract("""    ensures
+        /*@L:trace_prints_exception_line_frame_lines_and_cause:C17,C08*/ ret is Ok ==> (*final(f)).bytes() == (*old(f)).bytes() + trace_text(*self),
+""")
+    f.body_start("proof { axiom_dsp(); axiom_dsp_refs(); axiom_u16_literals(); }\n    let ghost t0 = (*f).bytes();\n    let ghost head = head_text(*self);\n")
+    lp = f.loops()
+    if len(lp) != 1 or lp[0][0] != "for":
+        raise AnchorLost("StackTrace::fmt: expected one `for` loop over the frames")
+    mfor = re.search(r"for\s+(\w+)\s+in\s+&self\.frames\s*\{", f.orig)
+    if not mfor:
+        raise AnchorLost("StackTrace::fmt: `for frame in &self.frames` not found")
+    f.replace_span(mfor.start(), mfor.end(), """for %s in it: &self.frames
+            invariant
+                (*f).bytes() == t0 + head + frames_text(self.frames@, it.index@ as int),
+                it.seq().len() == self.frames@.len(), forall|k: int| 0 <= k < it.seq().len() ==> *(#[trigger] it.seq()[k]) == self.frames@[k],
+        {
+            proof { axiom_dsp(); axiom_dsp_refs(); axiom_u16_literals(); }""" % mfor.group(1), "R1", "Verus loop-invariant syntax on the same `for` loop (named iterator)")
+    f.insert_at(mfor.start(), "proof { assert((*f).bytes() =~= t0 + head + frames_text(self.frames@, 0)); }\n        ")
+    f.insert_at(lp[0][3], """    proof {
+                let i = it.index@ as int;
+                assert(*%(fr)s == self.frames@[i]);
+                assert(frames_text(self.frames@, i + 1) == frames_text(self.frames@, i) + seq![32u8, 32u8, 32u8, 32u8] + dsp(self.frames@[i]) + seq![10u8]);
+                assert((*f).bytes() =~= t0 + head + frames_text(self.frames@, i + 1));
+            }
+        """ % dict(fr=mfor.group(1)))
+    u.raw("impl<'s> StackTrace<'s> {\n", "glue")
     u.emit(f)
     u.raw("}\n", "glue")
     # literal axioms for every string literal in the three bodies
